@@ -179,6 +179,57 @@ pub fn rand_radix_literal(rng: &mut Rng) -> String {
 }
 
 /// a decimal literal with many digits / extreme exponents
+/// One random edit of a numeric-looking string: a character from a small alphabet of signs,
+/// separators, exponent / radix letters and white space inserted, a character deleted,
+/// doubled, or its case flipped.  Most results are NOT numeric literals any more - the
+/// scanners must say so.
+pub fn mutate_numeric(rng: &mut Rng, t: &str) -> String {
+    let mut cs: Vec<char> = t.chars().collect();
+    let junk = ['+', '-', '.', '_', 'e', 'E', 'x', 'X', 'o', 'b', '0', '1', '9', ' ', '\u{85}', '\u{a0}', ',', 'I', 'n', 'f'];
+    let pos = if cs.is_empty() { 0 } else { rng.below(cs.len() + 1) };
+    match rng.below(5) {
+        0 | 1 => cs.insert(pos, *rng.pick(&junk)),
+        2 if !cs.is_empty() => {
+            cs.remove(pos.min(cs.len() - 1));
+        }
+        3 if !cs.is_empty() => {
+            let c = cs[pos.min(cs.len() - 1)];
+            cs.insert(pos.min(cs.len() - 1), c);
+        }
+        _ if !cs.is_empty() => {
+            let i = pos.min(cs.len() - 1);
+            cs[i] = if cs[i].is_ascii_lowercase() { cs[i].to_ascii_uppercase() } else { cs[i].to_ascii_lowercase() };
+        }
+        _ => cs.push(*rng.pick(&junk)),
+    }
+    cs.into_iter().collect()
+}
+
+/// Every single-character insertion of a sign, separator, exponent or radix letter, digit or
+/// blank into a few short literals: the edges of the StringNumericLiteral grammar, enumerated.
+pub fn grammar_edge_strings() -> Vec<String> {
+    let seeds = ["0x10", "0b11", "0o17", "1e5", "Infinity", ".5", "5.", "-1"];
+    let junk = ['+', '-', '.', '_', 'e', 'x', ' ', '0', 'I'];
+    let mut out = Vec::new();
+    for t in seeds {
+        let cs: Vec<char> = t.chars().collect();
+        for pos in 0..=cs.len() {
+            for j in junk {
+                let mut o: String = cs[..pos].iter().collect();
+                o.push(j);
+                o.extend(cs[pos..].iter());
+                out.push(o);
+            }
+        }
+        for pos in 0..cs.len() {
+            let mut o: String = cs[..pos].iter().collect();
+            o.extend(cs[pos + 1..].iter());
+            out.push(o);
+        }
+    }
+    out
+}
+
 pub fn rand_long_decimal(rng: &mut Rng) -> String {
     let mut t = String::new();
     if rng.chance(1, 3) {
@@ -206,8 +257,14 @@ pub fn rand_long_decimal(rng: &mut Rng) -> String {
 
 pub fn rand_string(rng: &mut Rng) -> String {
     match rng.below(12) {
-        10 => rand_radix_literal(rng),
-        11 => rand_long_decimal(rng),
+        10 => {
+            let t = rand_radix_literal(rng);
+            if rng.chance(1, 4) { mutate_numeric(rng, &t) } else { t }
+        }
+        11 => {
+            let t = rand_long_decimal(rng);
+            if rng.chance(1, 4) { mutate_numeric(rng, &t) } else { t }
+        }
         0..=2 => rng.pick(&strings()).to_string(),
         3..=4 => {
             // numeric-looking
